@@ -283,12 +283,8 @@ Proof.
 Qed.
 
 (* ---------- variable values (JSON) ---------- *)
-(* the defaults of input fields are valid literals of the field's type (an assumption on the schema:
-   the engine does not check it when it builds the schema) *)
-Hypothesis defaults_valid : forall n fields f d fuel dv,
-  find_type sch n = Some (DInput fields) -> In f fields -> in_default f = Some d ->
-  spec_literal sch fuel (in_type f) [] false d = Ok dv -> is_undef dv = false.
-
+(* (an input-field default that is not a valid literal of the field's type is a coercion error of the
+   field: no assumption on the defaults is needed) *)
 Definition input_sound_at (fuel : nat) (t : ty) : Prop :=
   forall p v r, spec_coerce sch fuel t p v = Ok (r, []) ->
                 has_type r t = true /\ (is_none v = false -> is_none r = false).
@@ -413,9 +409,8 @@ Proof.
     + destruct (in_default f) as [d|] eqn:Hd.
       * rewrite literal_coercer_refines_spec in Hf.
         destruct (spec_literal sch fuel (in_type f) [] false d) as [dv|e] eqn:Hl; cbn [bind] in Hf; [|discriminate].
-        injection Hf as <-. cbn [snd fst]. intros _.
-        exact (literal_sound fuel (in_type f) [] false d dv Hl (defaults_valid n fields f d fuel dv Hn Hfin Hd Hl)
-                             (lvt_nil fuel d (in_type f)) (fun H => ltac:(discriminate))).
+        destruct (is_undef dv) eqn:Hu; injection Hf as <-; cbn [snd fst]; [discriminate|]. intros _.
+        exact (literal_sound fuel (in_type f) [] false d dv Hl Hu (lvt_nil fuel d (in_type f)) (fun H => ltac:(discriminate))).
       * destruct (is_non_null (in_type f)) eqn:E; injection Hf as <-; [cbn [snd]; discriminate|reflexivity].
 Qed.
 
